@@ -198,9 +198,27 @@ WHAT = {
     'RC5': "KroneckerProductLinearOperator.root_inv_decomposition ignores its method argument and returns / caches whatever the method-less call yields for the current cache",
 }
 
+# RC3 seen through a later diagonalization() query (thorough tier: random from-scratch histories of length 4-6).  Written by hand from the
+# mechanism (reproduced natively, see C12_findings.md "Thorough tier"): after diagonalization(method=...) a method-less root_decomposition() /
+# root_inv_decomposition() under max_cholesky_size(1) takes the 'diagonalization' branch, which calls self.diagonalization() WITHOUT arguments
+# under the settings in force - a global Lanczos diagonalization, O(1) wrong / inf for the RC3 family (repeated eigenvalues) - and caches it
+# under the key of the argument-less call; a later diagonalization()@dflt is served that entry.
+RC3_DIAG_CACHE = {
+    'id': 'C12-RC3-history-diagonalization-1', 'property': 'C12',
+    'obligations': ['C12/rtc/history/diagonalization/%s' % c for c in
+                    ('identity', 'diag', 'constdiag', 'kron_diag', 'kpad_const', 'blockdiag', 'blockinterleaved', 'blockinterleaved3')],
+    'input_regex': r"history=\[(?:[^\]]* ; )?diagonalization\(method=\w+\)@\w+ ; (?:[^\]]* ; )?root_(?:inv_)?decomposition\((?:method=None)?\)@small(?:_off)?"
+                   r"(?: ;[^\]]*)?\]\|query=diagonalization\(\)@\w+\|scratch$",
+    'what': WHAT['RC3'] + " -- history/diagonalization: the argument-less self.diagonalization() issued by that branch under max_cholesky_size(1) (global Lanczos, "
+            "O(1) error or inf for block / constant-diagonal operators) is cached under the key of diagonalization() and served to a later diagonalization()@dflt "
+            "(e.g. blockinterleaved|float64|b=(2, 3)|n=2|history=[diagonalization(method=symeig)@dflt ; root_decomposition()@small ; ...]|query=diagonalization()@dflt: error 0.82)",
+}
+
 if __name__ == '__main__':
     clusters = collections.defaultdict(list)
     for name in sorted(F):
+        if '/history/diagonalization/' in name:
+            continue  # thorough tier only, 1 label per group and seed: covered by the hand-written mechanism entry RC3_DIAG_CACHE below
         c = synth(name)
         fam = '/'.join(name.split('/')[2:-1])
         key = (fam, c['query'], c['f32'][:2] if c['f32'] else None, c['f64'][:2] if c['f64'] else None)
@@ -222,5 +240,6 @@ if __name__ == '__main__':
             what = what[:880] + ' ... (full condition: input_regex)'
         entries.append({'id': eid, 'property': 'C12', 'obligations': [n for n, _ in items], 'input_regex': regex_of(c), 'what': what})
         print(f"{eid:70s} cases={len(cases):2d} fail={sum(x['n_fail'] for _, x in items):5d} passing-matched={mp:4d}/{sum(x['n_pass'] for _, x in items):5d}")
+    entries.append(RC3_DIAG_CACHE)
     json.dump(entries, open('/verif/contracts/notes/C12_known.json', 'w'), indent=1)
     print('failing obligations', len(F), 'entries', len(entries), 'total passing labels matched', tot_mp)
